@@ -428,6 +428,15 @@ def run_family(case):
         x0**2 * Dagger(x1) + x1 * Dagger(x0) ** 2,
         Dagger(x0) ** 3 + x0**3 + N0**2,
     ]
+    from sympy.physics.quantum import pauli as _pauli
+
+    spins = [ops[m] for m in ms if isinstance(ops[m], _pauli.SigmaMinus)]
+    if spins:
+        # Pauli matrices of the spin mode (looked up through its lowering operator), alone and next to other modes
+        nm_ = spins[0].name
+        sx, sy, sz = _pauli.SigmaX(nm_), _pauli.SigmaY(nm_), _pauli.SigmaZ(nm_)
+        other = x0 if x0 != spins[0] else x1
+        base += [sx + 2 * sy * sz, sx * (other + Dagger(other)) + sy, sz * Dagger(other) * other + sx * sy]
     V = []
     n = 0
     sp = Space(modes, D=15 if len(ms) <= 2 else 9)
@@ -480,20 +489,23 @@ def run_family(case):
                 check(f"({e}).subs(numbers)", X.subs(sub), sp.expr_matrix(e), dx, ux)
             finally:
                 sp.subs = old_subs
-        # predicates
+        # predicates (on non-zero operators: a vanishing form may keep zero-coefficient terms, which is a matter of
+        # representation and not of the operator it denotes)
+        nonzero = np.abs(mx).max() >= 1e-12
         n += 1
         idx_ = sp.interior(dx, ux)
         offd = mx[:, idx_].copy()
         offd[idx_, np.arange(idx_.size)] = 0
         conserving = bool(np.abs(offd).max(initial=0) < 1e-12)  # diagonal in the occupation-number basis
-        if bool(X.is_particle_conserving()) != conserving:
+        if nonzero and bool(X.is_particle_conserving()) != conserving:
             V.append(f"modes {ms}: is_particle_conserving({e}) is {X.is_particle_conserving()}")
         n += 1
         diff0 = X - NumberOrderedForm.from_expr(back, modes)
         if diff0.is_zero is False or np.abs(sp.nof_matrix(diff0)).max() > 1e-9:
             V.append(f"modes {ms}: ({e}) - from_expr(as_expr(.)) is not zero: {diff0}")
         n += 1
-        if (X == NumberOrderedForm.from_expr(back, modes)) is False or (X == X + 1) is True:
+        # `==` is structural (coefficients are not simplified first), so only its sound direction is checked
+        if nonzero and ((X == X + 1) is True or (X == X) is False):
             V.append(f"modes {ms}: == is inconsistent for {e}")
         for j, e2 in enumerate(base):
             if j <= i:
